@@ -2,3 +2,630 @@ import Rscp.Model.Vocab
 import Rscp.Model.Builder
 import Rscp.Spec.Frame
 import Rscp.Snapshot.Vocab
+import Rscp.Spec.Builder
+/-
+Lemmas for C14. The tag tables have 3 564 entries, so every closed check handed to the kernel is a
+linear (or n·log n) Boolean function over lists of `Nat`s, lifted to the `Prop` statement by a generic
+soundness lemma proved once:
+
+  * `sinc`      strictly increasing      ⇒ `Pairwise (· < ·)` ⇒ `Nodup`
+  * `Nodup.go`  search-tree insertion    ⇒ `Nodup`               (for the unsorted name codes)
+  * `subseq`    merge walk               ⇒ `∀ e ∈ a, e ∈ b`
+  * `lookup` in an association list with `Nodup` keys is membership
+-/
+namespace Rscp.Lemmas.Vocab
+open Rscp Rscp.Model
+
+/-! ### association lists -/
+
+theorem mem_of_lookup {β} {k : Nat} {v : β} : ∀ {l : List (Nat × β)}, lookup k l = some v → (k, v) ∈ l
+  | [], h => by simp [lookup] at h
+  | (a, b) :: r, h => by
+    unfold lookup at h
+    by_cases hak : a = k
+    · simp [hak] at h
+      subst hak; subst h
+      exact List.mem_cons_self
+    · simp [hak] at h
+      exact List.mem_cons_of_mem _ (mem_of_lookup h)
+
+theorem lookup_of_mem {β} {k : Nat} {v : β} : ∀ {l : List (Nat × β)}, (l.map (·.1)).Nodup → (k, v) ∈ l →
+    lookup k l = some v
+  | [], _, h => by simp at h
+  | (a, b) :: r, hnd, h => by
+    simp only [List.map_cons, List.nodup_cons] at hnd
+    unfold lookup
+    rcases List.mem_cons.mp h with heq | hmem
+    · cases heq; simp
+    · have hne : a ≠ k := by
+        intro e
+        apply hnd.1
+        rw [e]
+        exact List.mem_map.mpr ⟨(k, v), hmem, rfl⟩
+      simp [hne]
+      exact lookup_of_mem hnd.2 hmem
+
+theorem lookup_iff_mem {β} {k : Nat} {v : β} {l : List (Nat × β)} (hnd : (l.map (·.1)).Nodup) :
+    lookup k l = some v ↔ (k, v) ∈ l := ⟨mem_of_lookup, lookup_of_mem hnd⟩
+
+theorem key_of_lookup_isSome {β} {k : Nat} {l : List (Nat × β)} (h : (lookup k l).isSome = true) :
+    k ∈ l.map (·.1) := by
+  cases hv : lookup k l with
+  | none => rw [hv] at h; cases h
+  | some v => exact List.mem_map.mpr ⟨(k, v), mem_of_lookup hv, rfl⟩
+
+theorem lookup_none_of_not_key {β} {k : Nat} {l : List (Nat × β)} (h : k ∉ l.map (·.1)) : lookup k l = none := by
+  cases hv : lookup k l with
+  | none => rfl
+  | some v => exact absurd (key_of_lookup_isSome (by rw [hv]; rfl)) h
+
+/-- the swapped table -/
+def swap (p : Nat × Nat) : Nat × Nat := (p.2, p.1)
+
+theorem mem_swap {l l' : List (Nat × Nat)} (h : l.map swap = l') {a b : Nat} : (a, b) ∈ l ↔ (b, a) ∈ l' := by
+  subst h
+  constructor
+  · intro hm; exact List.mem_map.mpr ⟨(a, b), hm, rfl⟩
+  · intro hm
+    obtain ⟨⟨x, y⟩, hxy, he⟩ := List.mem_map.mp hm
+    simp only [swap, Prod.mk.injEq] at he
+    obtain ⟨rfl, rfl⟩ := he
+    exact hxy
+
+theorem keys_swap {l l' : List (Nat × Nat)} (h : l.map swap = l') : l.map (·.1) = l'.map (·.2) := by
+  subst h
+  simp [List.map_map, Function.comp_def, swap]
+
+/-! ### strictly increasing lists -/
+
+/-- strictly increasing, checked in one pass -/
+def sinc : List Nat → Bool
+  | [] => true
+  | [_] => true
+  | a :: b :: r => a < b && sinc (b :: r)
+
+theorem sinc_pairwise : ∀ (l : List Nat), sinc l = true → l.Pairwise (· < ·)
+  | [], _ => List.Pairwise.nil
+  | [a], _ => by simp
+  | a :: b :: r, h => by
+    simp only [sinc, Bool.and_eq_true, decide_eq_true_eq] at h
+    have ih := sinc_pairwise (b :: r) h.2
+    refine List.Pairwise.cons ?_ ih
+    intro x hx
+    rcases List.mem_cons.mp hx with rfl | hx
+    · exact h.1
+    · exact Nat.lt_trans h.1 ((List.pairwise_cons.mp ih).1 x hx)
+
+theorem sinc_nodup (l : List Nat) (h : sinc l = true) : l.Nodup :=
+  (sinc_pairwise l h).imp (fun hab => Nat.ne_of_lt hab)
+
+/-! ### duplicate detection in n·depth steps -/
+
+namespace Nodup
+/-- duplicate detection by insertion into an (unbalanced) search tree: n·depth kernel steps
+    instead of n² -/
+inductive T | leaf | node (l : T) (k : Nat) (r : T)
+def T.mem (x : Nat) : T → Bool
+  | .leaf => false
+  | .node l k r => if x < k then l.mem x else if k < x then r.mem x else true
+def T.ins (x : Nat) : T → T
+  | .leaf => .node .leaf x .leaf
+  | .node l k r => if x < k then .node (l.ins x) k r else if k < x then .node l k (r.ins x) else .node l k r
+def go : List Nat → T → Bool
+  | [], _ => true
+  | x :: xs, t => !t.mem x && go xs (t.ins x)
+
+theorem mem_ins_self (x : Nat) : ∀ t : T, (t.ins x).mem x = true
+  | .leaf => by simp [T.ins, T.mem]
+  | .node l k r => by
+    unfold T.ins
+    by_cases h1 : x < k
+    · simp [h1, T.mem, mem_ins_self x l]
+    · by_cases h2 : k < x
+      · simp [h1, h2, T.mem, mem_ins_self x r]
+      · simp [h1, h2, T.mem]
+
+theorem mem_ins_other (x y : Nat) (hxy : y ≠ x) : ∀ t : T, (t.ins x).mem y = t.mem y
+  | .leaf => by
+    simp only [T.ins, T.mem]
+    by_cases h1 : y < x
+    · simp [h1]
+    · have : x < y := by omega
+      simp [h1, this]
+  | .node l k r => by
+    unfold T.ins
+    by_cases h1 : x < k
+    · simp only [h1, if_true, T.mem]
+      rw [mem_ins_other x y hxy l]
+    · by_cases h2 : k < x
+      · simp only [h1, h2, if_true, if_false, T.mem]
+        rw [mem_ins_other x y hxy r]
+      · simp [h1, h2]
+
+theorem go_sound : ∀ (l : List Nat) (t : T), go l t = true → l.Nodup ∧ ∀ x ∈ l, t.mem x = false
+  | [], _, _ => by simp
+  | x :: xs, t, h => by
+    simp only [go, Bool.and_eq_true, Bool.not_eq_true'] at h
+    obtain ⟨hx, hrest⟩ := h
+    obtain ⟨hnd, hmem⟩ := go_sound xs (t.ins x) hrest
+    have hxnot : x ∉ xs := by
+      intro hin
+      have := hmem x hin
+      rw [mem_ins_self] at this
+      cases this
+    refine ⟨List.nodup_cons.mpr ⟨hxnot, hnd⟩, ?_⟩
+    intro y hy
+    rcases List.mem_cons.mp hy with rfl | hy'
+    · exact hx
+    · have hne : y ≠ x := fun e => hxnot (e ▸ hy')
+      rw [← mem_ins_other x y hne t]
+      exact hmem y hy'
+
+theorem nodup_of_go (l : List Nat) (h : go l .leaf = true) : l.Nodup := (go_sound l .leaf h).1
+end Nodup
+
+/-! ### sub-list check by one merge walk -/
+
+/-- every element of the first list occurs in the second, in the same order -/
+def subseq {α} [DecidableEq α] : List α → List α → Bool
+  | [], _ => true
+  | _ :: _, [] => false
+  | a :: as, b :: bs => if a = b then subseq as bs else subseq (a :: as) bs
+
+theorem subseq_sound {α} [DecidableEq α] : ∀ (a b : List α), subseq a b = true → ∀ e ∈ a, e ∈ b
+  | [], _, _ => by simp
+  | _ :: _, [], h => by simp [subseq] at h
+  | a :: as, b :: bs, h => by
+    unfold subseq at h
+    by_cases hab : a = b
+    · simp only [hab, if_true] at h
+      intro e he
+      rcases List.mem_cons.mp he with rfl | he
+      · rw [hab]; exact List.mem_cons_self
+      · exact List.mem_cons_of_mem _ (subseq_sound as bs h e he)
+    · simp only [hab, if_false] at h
+      intro e he
+      exact List.mem_cons_of_mem _ (subseq_sound (a :: as) bs h e he)
+
+
+theorem lookup_isSome_of_key {β} {k : Nat} : ∀ {l : List (Nat × β)}, k ∈ l.map (·.1) → (lookup k l).isSome = true
+  | [], h => by simp at h
+  | (a, b) :: r, h => by
+    unfold lookup
+    by_cases hak : a = k
+    · simp [hak]
+    · simp only [hak, if_false]
+      simp only [List.map_cons, List.mem_cons] at h
+      rcases h with h | h
+      · exact absurd h.symm hak
+      · exact lookup_isSome_of_key h
+
+/-- two association lists with the same entries, one of them with unique keys, look up the same -/
+theorem same_lookup {β} {l s : List (Nat × β)} (hmem : ∀ x, x ∈ l ↔ x ∈ s) (hnd : (s.map (·.1)).Nodup) (k : Nat) :
+    lookup k l = lookup k s := by
+  have hfun : ∀ v v', (k, v) ∈ l → (k, v') ∈ l → v = v' := by
+    intro v v' h1 h2
+    have e1 := lookup_of_mem hnd ((hmem _).1 h1)
+    have e2 := lookup_of_mem hnd ((hmem _).1 h2)
+    rw [e1] at e2
+    exact Option.some.inj e2
+  cases hs : lookup k s with
+  | some v =>
+    have hin : (k, v) ∈ l := (hmem _).2 (mem_of_lookup hs)
+    cases hl : lookup k l with
+    | some v' => rw [hfun v' v (mem_of_lookup hl) hin]
+    | none =>
+      have := lookup_isSome_of_key (List.mem_map.mpr ⟨(k, v), hin, rfl⟩)
+      rw [hl] at this; cases this
+  | none =>
+    cases hl : lookup k l with
+    | none => rfl
+    | some v' =>
+      have := lookup_of_mem hnd ((hmem _).1 (mem_of_lookup hl))
+      rw [hs] at this; cases this
+
+/-! ### sorting an association list by insertion (only membership is proved; the order is checked) -/
+
+/-- insertion from the front; the tables are nearly sorted, so that `tsort` is close to linear on them -/
+def insKey (p : Nat × Nat) : List (Nat × Nat) → List (Nat × Nat)
+  | [] => [p]
+  | q :: r => if p.1 < q.1 then p :: q :: r else q :: insKey p r
+/-- insertion sort by key, from the right -/
+def tsort (l : List (Nat × Nat)) : List (Nat × Nat) := l.foldr insKey []
+
+theorem mem_insKey (p x : Nat × Nat) : ∀ l : List (Nat × Nat), x ∈ insKey p l ↔ x = p ∨ x ∈ l
+  | [] => by simp [insKey]
+  | q :: r => by
+    unfold insKey
+    by_cases h : p.1 < q.1
+    · simp [h]
+    · simp only [h, if_false, List.mem_cons, mem_insKey p x r]
+      constructor
+      · rintro (h | h | h) <;> simp [h]
+      · rintro (h | h | h) <;> simp [h]
+
+theorem mem_tsort : ∀ (l : List (Nat × Nat)) (x : Nat × Nat), x ∈ l ↔ x ∈ tsort l
+  | [], x => by simp [tsort]
+  | p :: l, x => by
+    have ih := mem_tsort l x
+    unfold tsort at ih ⊢
+    rw [List.foldr_cons, mem_insKey, ← ih, List.mem_cons]
+
+/-- if the sorted list has strictly increasing keys, it looks up exactly like the original -/
+theorem lookup_tsort (l : List (Nat × Nat)) (h : sinc ((tsort l).map (·.1)) = true) (k : Nat) :
+    lookup k l = lookup k (tsort l) :=
+  same_lookup (mem_tsort l) (sinc_nodup _ h) k
+
+/-! ### declared data types against a sorted vocabulary: one merge walk -/
+
+/-- `es`: (number, name, data type) sorted by number; `ps`: (number, data type) sorted by number.
+    Every entry of `es` carries the data type `ps` declares for it, `0` if none. -/
+def dtWalk : List (Nat × Nat × Nat) → List (Nat × Nat) → Bool
+  | [], _ => true
+  | e :: es, [] => e.2.2 == 0 && dtWalk es []
+  | e :: es, p :: ps =>
+    if p.1 = e.1 then e.2.2 == p.2 && dtWalk es ps
+    else if e.1 < p.1 then e.2.2 == 0 && dtWalk es (p :: ps)
+    else false
+
+theorem lookup_none_of_lt {k : Nat} {ps : List (Nat × Nat)} (h : ∀ q ∈ ps, k < q.1) : lookup k ps = none := by
+  apply lookup_none_of_not_key
+  intro hk
+  obtain ⟨q, hq, he⟩ := List.mem_map.mp hk
+  have := h q hq
+  omega
+
+theorem dtWalk_sound : ∀ (es : List (Nat × Nat × Nat)) (ps : List (Nat × Nat)), dtWalk es ps = true →
+    (es.map (·.1)).Pairwise (· < ·) → (ps.map (·.1)).Pairwise (· < ·) →
+    ∀ e ∈ es, (lookup e.1 ps).getD 0 = e.2.2
+  | [], _, _, _, _ => by simp
+  | e :: es, [], h, hes, hps => by
+    simp only [dtWalk, Bool.and_eq_true, beq_iff_eq] at h
+    simp only [List.map_cons, List.pairwise_cons] at hes
+    intro e' he'
+    rcases List.mem_cons.mp he' with rfl | he'
+    · simp [lookup, h.1]
+    · exact dtWalk_sound es [] h.2 hes.2 hps e' he'
+  | e :: es, p :: ps, h, hes, hps => by
+    unfold dtWalk at h
+    simp only [List.map_cons, List.pairwise_cons] at hes hps
+    by_cases h1 : p.1 = e.1
+    · simp only [h1, if_true, Bool.and_eq_true, beq_iff_eq] at h
+      intro e' he'
+      rcases List.mem_cons.mp he' with rfl | he'
+      · obtain ⟨p1, p2⟩ := p
+        simp only at h1
+        simp [lookup, h1, h.1]
+      · have hlt : e.1 < e'.1 := hes.1 _ (List.mem_map.mpr ⟨e', he', rfl⟩)
+        obtain ⟨p1, p2⟩ := p
+        simp only at h1
+        have hne : ¬ p1 = e'.1 := by omega
+        unfold lookup
+        simp only [hne, if_false]
+        exact dtWalk_sound es ps h.2 hes.2 hps.2 e' he'
+    · by_cases h2 : e.1 < p.1
+      · simp only [h1, h2, if_true, if_false, Bool.and_eq_true, beq_iff_eq] at h
+        intro e' he'
+        rcases List.mem_cons.mp he' with rfl | he'
+        · rw [lookup_none_of_lt, h.1]
+          · rfl
+          · intro q hq
+            rcases List.mem_cons.mp hq with rfl | hq
+            · exact h2
+            · exact Nat.lt_trans h2 (hps.1 _ (List.mem_map.mpr ⟨q, hq, rfl⟩))
+        · exact dtWalk_sound es (p :: ps) h.2 hes.2
+            (by simp only [List.map_cons, List.pairwise_cons]; exact hps) e' he'
+      · simp [h1, h2] at h
+
+
+/-! ### the closed checks on the generated tables (each one linear or n·log n on `Nat`s) -/
+
+theorem tagValues_sinc : sinc Gen.tagValues = true := by decide +kernel
+theorem tagMapC_keys : Gen.tagMapC.map (·.1) = Gen.tagValues := by decide +kernel
+theorem nameToValueC_swap : Gen.tagNameToValueC.map swap = Gen.tagMapC := by decide +kernel
+/-- only the number column of the `String` tables is evaluated -/
+theorem tagMap_keys : Gen.tagMap.map (·.1) = Gen.tagValues := by decide +kernel
+theorem tagNameToValue_vals : Gen.tagNameToValue.map (·.2) = Gen.tagValues := by decide +kernel
+theorem codes_go : Nodup.go (Gen.tagMapC.map (·.2)) .leaf = true := by decide +kernel
+theorem vocab_tagMapC : Gen.vocabC.map (fun e => (e.1, e.2.1)) = Gen.tagMapC := by decide +kernel
+theorem snapshot_subseq : subseq Snapshot.vocabC Gen.vocabC = true := by decide +kernel
+theorem dtm_sorted : sinc ((tsort Gen.dataTypeMap).map (·.1)) = true := by decide +kernel
+theorem dtm_walk : dtWalk Gen.vocabC (tsort Gen.dataTypeMap) = true := by decide +kernel
+theorem dtm_keys_tags : subseq ((tsort Gen.dataTypeMap).map (·.1)) Gen.tagValues = true := by decide +kernel
+theorem dtm_types : Gen.dataTypeMap.all (fun p => isDataType p.2) = true := by decide +kernel
+
+/-! ### what they mean -/
+
+theorem tagValues_pairwise : Gen.tagValues.Pairwise (· < ·) := sinc_pairwise _ tagValues_sinc
+theorem tagValues_nodup : Gen.tagValues.Nodup := sinc_nodup _ tagValues_sinc
+theorem tagMapC_keys_nodup : (Gen.tagMapC.map (·.1)).Nodup := by rw [tagMapC_keys]; exact tagValues_nodup
+theorem codes_nodup : (Gen.tagMapC.map (·.2)).Nodup := Nodup.nodup_of_go _ codes_go
+theorem nameToValueC_keys_nodup : (Gen.tagNameToValueC.map (·.1)).Nodup := by
+  rw [keys_swap nameToValueC_swap]; exact codes_nodup
+
+theorem name_roundtrip (t c : Nat) (h : tagName? t = some c) : tagStringC? c = some t := by
+  unfold tagName? at h
+  unfold tagStringC?
+  exact lookup_of_mem nameToValueC_keys_nodup ((mem_swap nameToValueC_swap).2 (mem_of_lookup h))
+
+theorem number_roundtrip (t c : Nat) (h : tagStringC? c = some t) : tagName? t = some c := by
+  unfold tagStringC? at h
+  unfold tagName?
+  exact lookup_of_mem tagMapC_keys_nodup ((mem_swap nameToValueC_swap).1 (mem_of_lookup h))
+
+theorem vocab_keys : Gen.vocabC.map (·.1) = Gen.tagValues := by
+  rw [← tagMapC_keys, ← vocab_tagMapC, List.map_map]
+  rfl
+
+theorem tagDataType_sorted (t : Nat) : tagDataType t = (lookup t (tsort Gen.dataTypeMap)).getD 0 := by
+  unfold tagDataType
+  rw [lookup_tsort _ dtm_sorted]
+
+theorem vocab_types : ∀ e ∈ Gen.vocabC, tagDataType e.1 = e.2.2 := by
+  intro e he
+  rw [tagDataType_sorted]
+  exact dtWalk_sound _ _ dtm_walk (by rw [vocab_keys]; exact tagValues_pairwise)
+    (sinc_pairwise _ dtm_sorted) e he
+
+theorem isATag_of_mem {t : Nat} (h : t ∈ Gen.tagValues) : isATag t = true := by
+  unfold isATag tagName?
+  apply lookup_isSome_of_key
+  rw [tagMapC_keys]; exact h
+
+theorem declared (p : Nat × Nat) (hp : p ∈ Gen.dataTypeMap) : isDataType p.2 = true ∧ isATag p.1 = true := by
+  refine ⟨List.all_eq_true.mp dtm_types p hp, isATag_of_mem ?_⟩
+  apply subseq_sound _ _ dtm_keys_tags
+  exact List.mem_map.mpr ⟨p, (mem_tsort _ _).1 hp, rfl⟩
+
+
+/-! ### the 18 data types -/
+
+theorem mem_dataTypeValues {d : Nat} (h : isDataType d = true) : d ∈ Gen.dataTypeValues := by
+  unfold isDataType at h
+  exact List.contains_iff_mem.mp h
+
+/-- the four implementation tables and the specification's table agree on `d` -/
+def agreeB (d : Nat) : Bool :=
+  match Spec.typeRow d with
+  | some (k, fixed) =>
+    decide (lookup d Gen.validateKind = some k) && decide (lookup d Gen.newEmptyKind = some k) &&
+      decide (lookup d Gen.newConvKind = some k) && decide (lookup d Gen.lengthMap = some (fixed.getD 0))
+  | none => false
+
+theorem agree_all : Gen.dataTypeValues.all agreeB = true := by decide
+
+theorem tables_agree (d : Nat) (h : isDataType d = true) :
+    ∃ k fixed, Spec.typeRow d = some (k, fixed) ∧ lookup d Gen.validateKind = some k ∧
+      lookup d Gen.newEmptyKind = some k ∧ lookup d Gen.newConvKind = some k ∧
+      lookup d Gen.lengthMap = some (fixed.getD 0) := by
+  have hb := List.all_eq_true.mp agree_all d (mem_dataTypeValues h)
+  unfold agreeB at hb
+  split at hb
+  · next k fixed hrow =>
+    simp only [Bool.and_eq_true, decide_eq_true_eq] at hb
+    exact ⟨k, fixed, hrow, hb.1.1.1, hb.1.1.2, hb.1.2, hb.2⟩
+  · cases hb
+
+theorem keys_defined :
+    (Gen.validateKind.map (·.1) ++ Gen.newEmptyKind.map (·.1) ++ Gen.newConvKind.map (·.1) ++
+      Gen.lengthMap.map (·.1) ++ Spec.typeTable.map (·.1)).all isDataType = true := by decide
+
+theorem tables_only_defined (d : Nat)
+    (h : (lookup d Gen.validateKind).isSome ∨ (lookup d Gen.newEmptyKind).isSome ∨ (lookup d Gen.newConvKind).isSome ∨
+      (lookup d Gen.lengthMap).isSome ∨ (Spec.typeRow d).isSome) : isDataType d = true := by
+  apply List.all_eq_true.mp keys_defined d
+  simp only [List.mem_append]
+  rcases h with h | h | h | h | h
+  · exact Or.inl (Or.inl (Or.inl (Or.inl (key_of_lookup_isSome h))))
+  · exact Or.inl (Or.inl (Or.inl (Or.inr (key_of_lookup_isSome h))))
+  · exact Or.inl (Or.inl (Or.inr (key_of_lookup_isSome h)))
+  · exact Or.inl (Or.inr (key_of_lookup_isSome h))
+  · exact Or.inr (key_of_lookup_isSome h)
+
+theorem mem_of_lookupStr {β} {k : String} {v : β} : ∀ {l : List (String × β)}, lookupStr k l = some v → (k, v) ∈ l
+  | [], h => by simp [lookupStr] at h
+  | (a, b) :: r, h => by
+    unfold lookupStr at h
+    by_cases hak : a = k
+    · simp [hak] at h
+      subst hak; subst h
+      exact List.mem_cons_self
+    · simp [hak] at h
+      exact List.mem_cons_of_mem _ (mem_of_lookupStr h)
+
+theorem json_dt_roundtrip (d : Nat) (h : isDataType d = true) :
+    ∃ s, dataTypeName? d = some s ∧ dataTypeString? s = some d ∧ ∀ s', dataTypeString? s' = some d → s' = s := by
+  have hm := mem_dataTypeValues h
+  simp only [Gen.dataTypeValues, List.mem_cons, List.mem_nil_iff, or_false] at hm
+  rcases hm with rfl | rfl | rfl | rfl | rfl | rfl | rfl | rfl | rfl | rfl | rfl | rfl | rfl | rfl | rfl | rfl | rfl | rfl
+  all_goals
+    refine ⟨_, rfl, by simp [dataTypeString?, lookupStr, Gen.dataTypeNameToValue], ?_⟩
+    intro s' hs'
+    have := mem_of_lookupStr hs'
+    simpa [Gen.dataTypeNameToValue] using this
+
+theorem request_bit (t : Nat) : Gen.Leaf.isRequest t = !t.testBit 23 ∧ Gen.Leaf.isResponse t = t.testBit 23 := by
+  unfold Gen.Leaf.isRequest Gen.Leaf.isResponse Nat.testBit
+  rw [Nat.and_comm 1, Nat.and_one_is_mod]
+  rcases Nat.mod_two_eq_zero_or_one (t >>> 23) with h | h <;> simp [h]
+
+
+/-! ### `nameCode` is injective -/
+
+/-- the code of a byte list given least significant byte first -/
+def codeLE : List UInt8 → Nat
+  | [] => 1
+  | b :: r => codeLE r * 256 + b.toNat
+
+theorem codeLE_pos : ∀ l, 1 ≤ codeLE l
+  | [] => Nat.le_refl 1
+  | b :: r => by have := codeLE_pos r; simp only [codeLE]; omega
+
+theorem codeLE_inj : ∀ l₁ l₂ : List UInt8, codeLE l₁ = codeLE l₂ → l₁ = l₂
+  | [], [], _ => rfl
+  | [], b :: r, h => by
+    have := codeLE_pos r
+    simp only [codeLE] at h; omega
+  | b :: r, [], h => by
+    have := codeLE_pos r
+    simp only [codeLE] at h; omega
+  | b₁ :: r₁, b₂ :: r₂, h => by
+    simp only [codeLE] at h
+    have h1 := b₁.toNat_lt
+    have h2 := b₂.toNat_lt
+    have hr : codeLE r₁ = codeLE r₂ := by omega
+    have hb : b₁.toNat = b₂.toNat := by omega
+    rw [codeLE_inj r₁ r₂ hr, UInt8.toNat_inj.mp hb]
+
+theorem foldl_codeLE (l : List UInt8) : l.foldl (fun a b => a * 256 + b.toNat) 1 = codeLE l.reverse := by
+  rw [← List.foldr_reverse]
+  generalize l.reverse = r
+  induction r with
+  | nil => rfl
+  | cons b r ih => simp only [List.foldr_cons, codeLE, ih]
+
+theorem toList_loop (bs : ByteArray) : ∀ (n i : Nat) (r : List UInt8), bs.size - i = n →
+    ByteArray.toList.loop bs i r = r.reverse ++ bs.data.toList.drop i := by
+  intro n
+  induction n with
+  | zero =>
+    intro i r h
+    unfold ByteArray.toList.loop
+    have : ¬ i < bs.size := by omega
+    simp only [this, if_false]
+    have : bs.data.toList.length ≤ i := by
+      have : bs.size = bs.data.toList.length := by cases bs; rfl
+      omega
+    rw [List.drop_eq_nil_of_le this]; simp
+  | succ n ih =>
+    intro i r h
+    unfold ByteArray.toList.loop
+    have hi : i < bs.size := by omega
+    simp only [hi, if_true]
+    rw [ih (i + 1) _ (by omega)]
+    have hlen : i < bs.data.toList.length := by
+      have : bs.size = bs.data.toList.length := by cases bs; rfl
+      omega
+    have hget : bs.get! i = bs.data.toList[i] := by
+      cases bs with
+      | mk d =>
+        simp only [ByteArray.get!]
+        have : i < d.size := by simpa using hlen
+        simp [this]
+    rw [List.reverse_cons, List.append_assoc, hget, List.drop_eq_getElem_cons hlen]
+    rfl
+
+theorem byteArray_toList (bs : ByteArray) : bs.toList = bs.data.toList := by
+  unfold ByteArray.toList
+  rw [toList_loop bs _ 0 [] rfl]
+  simp
+
+theorem nameCode_injective (s₁ s₂ : String) (h : nameCode s₁ = nameCode s₂) : s₁ = s₂ := by
+  unfold nameCode at h
+  rw [foldl_codeLE, foldl_codeLE] at h
+  have h1 := List.reverse_inj.mp (codeLE_inj _ _ h)
+  rw [byteArray_toList, byteArray_toList] at h1
+  apply String.toByteArray_inj.mp
+  apply ByteArray.ext
+  exact Array.toList_inj.mp h1
+
+/-! ### decimal numerals are not tag names, and parse back -/
+
+/-- strip trailing bytes until only the leading `1` and the first byte are left (`256 + first byte`);
+    running out of fuel answers `304` ("starts with the digit 0") so that the check below fails safe -/
+def top : Nat → Nat → Nat
+  | 0, _ => 304
+  | f + 1, c => if c < 65536 then c else top f (c / 256)
+
+/-- a code whose first byte is a decimal digit -/
+def isLead (x : Nat) : Bool := 304 ≤ x && x ≤ 313
+def digitLead (c : Nat) : Bool := isLead (top 128 c)
+
+theorem codeLE_snoc_ge (b0 : UInt8) : ∀ r : List UInt8, 256 ≤ codeLE (r ++ [b0])
+  | [] => by simp [codeLE]
+  | b :: r => by
+    have := codeLE_snoc_ge b0 r
+    simp only [List.cons_append, codeLE]; omega
+
+theorem top_digit (b0 : UInt8) (h1 : 48 ≤ b0.toNat) (h2 : b0.toNat ≤ 57) :
+    ∀ (f : Nat) (r : List UInt8), 304 ≤ top f (codeLE (r ++ [b0])) ∧ top f (codeLE (r ++ [b0])) ≤ 313
+  | 0, _ => by simp [top]
+  | f + 1, [] => by
+    have : codeLE ([] ++ [b0]) = 256 + b0.toNat := by simp [codeLE]
+    rw [this]
+    unfold top
+    have : 256 + b0.toNat < 65536 := by omega
+    simp only [this, if_true]
+    omega
+  | f + 1, b :: r => by
+    have hge := codeLE_snoc_ge b0 r
+    have hb := b.toNat_lt
+    unfold top
+    simp only [List.cons_append, codeLE]
+    have h : ¬ codeLE (r ++ [b0]) * 256 + b.toNat < 65536 := by omega
+    simp only [h, if_false]
+    have : (codeLE (r ++ [b0]) * 256 + b.toNat) / 256 = codeLE (r ++ [b0]) := by omega
+    rw [this]
+    exact top_digit b0 h1 h2 f r
+
+theorem isDigit_bounds {c : Char} (h : c.isDigit = true) : 48 ≤ c.val.toNat ∧ c.val.toNat ≤ 57 := by
+  simp only [Char.isDigit, Bool.and_eq_true, decide_eq_true_eq, ge_iff_le, UInt32.le_iff_toNat_le] at h
+  exact h
+
+theorem nameCode_toString_digitLead (t : Nat) : digitLead (nameCode (toString t)) = true := by
+  have hne : Nat.toDigits 10 t ≠ [] := Nat.toDigits_ne_nil
+  have hdig : ∀ c ∈ Nat.toDigits 10 t, c.isDigit = true :=
+    fun c hc => Nat.isDigit_of_mem_toDigits (by decide) (by decide) hc
+  unfold nameCode
+  rw [foldl_codeLE, byteArray_toList, String.toUTF8_eq_toByteArray, Nat.toString_eq_ofList_toDigits,
+    String.toByteArray_ofList]
+  cases hd : Nat.toDigits 10 t with
+  | nil => exact absurd hd hne
+  | cons c0 cs =>
+    have hc0 := isDigit_bounds (hdig c0 (by rw [hd]; exact List.mem_cons_self))
+    have hsz : c0.utf8Size = 1 := Char.utf8Size_eq_one_iff.mpr (by
+      rw [UInt32.le_iff_toNat_le]; have := hc0.2; exact Nat.le_trans this (by decide))
+    rw [List.utf8Encode_cons, List.utf8Encode_singleton, String.utf8EncodeChar_eq_singleton hsz,
+      ByteArray.toList_data_append, List.toList_data_toByteArray, List.reverse_append, List.reverse_singleton]
+    have hb : c0.val.toUInt8.toNat = c0.val.toNat := by
+      rw [UInt32.toNat_toUInt8]; omega
+    have := top_digit c0.val.toUInt8 (by omega) (by omega) 128 cs.utf8Encode.data.toList.reverse
+    unfold digitLead isLead
+    rw [Bool.and_eq_true, decide_eq_true_eq, decide_eq_true_eq]
+    exact this
+
+theorem parseDec_toString (t : Nat) (h : t < 2 ^ 32) : parseDec 32 (toString t) = some t := by
+  have hne : Nat.toDigits 10 t ≠ [] := Nat.toDigits_ne_nil
+  have hdig : ∀ c ∈ Nat.toDigits 10 t, c.isDigit = true :=
+    fun c hc => Nat.isDigit_of_mem_toDigits (by decide) (by decide) hc
+  have hval : (Nat.toDigits 10 t).foldl (fun a c => 10 * a + (c.toNat - 48)) 0 = t :=
+    Nat.ofDigitChars_toDigits (b := 10) (n := t) (by decide) (by decide)
+  unfold parseDec
+  simp only [Nat.toString_eq_repr, Nat.toList_repr]
+  have h1 : (Nat.toDigits 10 t).isEmpty = false := by
+    cases hd : Nat.toDigits 10 t with
+    | nil => exact absurd hd hne
+    | cons _ _ => rfl
+  have h2 : (Nat.toDigits 10 t).all Char.isDigit = true := List.all_eq_true.mpr hdig
+  simp [h1, h2, hval, h]
+
+
+theorem names_not_numerals : Gen.tagNameToValueC.all (fun p => !digitLead p.1) = true := by decide +kernel
+
+theorem tagString_toString (t : Nat) : tagString? (toString t) = none := by
+  unfold tagString? tagStringC?
+  apply lookup_none_of_not_key
+  intro hk
+  obtain ⟨p, hp, he⟩ := List.mem_map.mp hk
+  have h1 := List.all_eq_true.mp names_not_numerals p hp
+  have h2 := nameCode_toString_digitLead t
+  have he' : p.1 = nameCode (toString t) := he
+  rw [he', h2] at h1
+  cases h1
+
+theorem json_tag_roundtrip_unknown (t : Nat) (h : t < 2 ^ 32) :
+    tagUnmarshalStr (toString t) = some t := by
+  unfold tagUnmarshalStr
+  rw [tagString_toString, parseDec_toString t h]
+
+end Rscp.Lemmas.Vocab
